@@ -13,7 +13,7 @@ COMMON = ["-O1", "-g", "-D_GNU_SOURCE", "-DHAVE_CONFIG_H", "-include", os.path.j
           "-I" + os.path.join(REPO, "include"), "-I" + os.path.join(REPO, "src"), "-w"]
 # hooks: small-table access to the partitioned resize and the counter-driven lazy resize (C09)
 TUNE = ["-DURCU_VERIF", "-DURCU_VERIF_MIN_PARTITION_PER_THREAD_ORDER=5", "-DURCU_VERIF_COUNT_COMMIT_ORDER=2"]
-LIBSRC = [("urcu.c", ["-DRCU_MEMBARRIER"]), ("urcu-pointer.c", []), ("wfcqueue.c", []), ("wfstack.c", []), ("compat_arch.c", []),
+LIBSRC = [("urcu.c", ["-DRCU_MB"]), ("urcu-pointer.c", []), ("wfcqueue.c", []), ("wfstack.c", []), ("compat_arch.c", []),
           ("compat_futex.c", []), ("workqueue.c", []), ("rculfhash.c", []), ("rculfhash-mm-order.c", []), ("rculfhash-mm-chunk.c", []),
           ("rculfhash-mm-mmap.c", [])]
 TARGETS = {"lfht_fuzz": dict(src="lfht_fuzz.cc", lib=True, csrc=["lfht_glue.c"])}
